@@ -197,3 +197,153 @@ theorem parseCidr6S_accepts (s : Str) (h : CidrWF6 s) :
     rw [ok_bind, this]; rfl
 
 end Pox.Addr
+
+namespace Pox.Addr
+
+/-! ### exact results of the repaired `IPAddr6.parse_cidr`, for every flag value -/
+
+theorem cidr6Len_eq (t : Str) (a : Bytes) (ht : denote6 t = some a) (len : Nat) (allowHost : Bool) :
+    cidr6Len parse6S t (len : Int) allowHost = cidrLenResult 128 a (num6 a) len allowHost := by
+  unfold cidr6Len cidrLenResult
+  simp only
+  by_cases hl : len > 128
+  · rw [if_pos hl, if_pos (by omega)]
+  · rw [if_neg hl, if_neg (by omega), parse6S_denote t a ht, ok_bind]
+    have hw : ((128 : Int) - (len : Int)).toNat = 128 - len := by omega
+    rw [hw, cidrCheck_eq]
+    by_cases hc : (!allowHost && decide (num6 a % 2 ^ (128 - len) ≠ 0)) = true
+    · rw [if_pos hc, if_pos hc]; rfl
+    · rw [if_neg hc, if_neg hc, ok_bind]
+      have : 128 - (128 - len) = len := by omega
+      rw [this]; rfl
+
+theorem parseCidr6S_prefixD (t D : Str) (a : Bytes) (ht : denote6 t = some a) (hd : isDecStr D = true) (allowHost : Bool) :
+    parseCidr6SWith parse6S (t ++ '/' :: D) allowHost = cidrLenResult 128 a (num6 a) (foldDig 10 0 D) allowHost := by
+  obtain ⟨hne, hdig⟩ := isDecStr_spec D hd
+  unfold parseCidr6SWith
+  rw [splitOn_two _ _ (denote6_no_slash t a ht) (dec_no_slash D hdig)]
+  simp only [hd, if_true]
+  rw [pyInt_dig 10 (by decide) D hdig hne]
+  exact cidr6Len_eq t a ht _ allowHost
+
+theorem parseCidr6S_netmask (t m : Str) (a mb : Bytes) (len : Nat) (ht : denote6 t = some a) (hm : denote6 m = some mb)
+    (hle : len ≤ 128) (hnum : num6 mb = 2 ^ 128 - 2 ^ (128 - len)) (allowHost : Bool) :
+    parseCidr6SWith parse6S (t ++ '/' :: m) allowHost = cidrLenResult 128 a (num6 a) len allowHost := by
+  have hnd : isDecStr m = false := by
+    cases hh : isDecStr m with
+    | false => rfl
+    | true => rw [denote6_dec_none m hh] at hm; cases hm
+  have hlt := num6_lt mb (denote6_length m mb hm)
+  have hmask : maskBits 128 (num6 mb) = .ok len := by
+    rw [maskBits_eq 128 (by decide) _ hlt]
+    exact (netmaskToCidrN_spec 128 (by decide) _ hlt len).mpr ⟨hle, hnum⟩
+  unfold parseCidr6SWith cidr6Mask cidrLenResult
+  rw [splitOn_two _ _ (denote6_no_slash t a ht) (denote6_no_slash m mb hm)]
+  simp only [hnd, Bool.false_eq_true, if_false]
+  rw [parse6S_denote m mb hm, ok_bind, hmask, ok_bind, parse6S_denote t a ht, ok_bind, cidrCheck_eq, if_neg (show ¬ len > 128 by omega)]
+  by_cases hc : (!allowHost && decide (num6 a % 2 ^ (128 - len) ≠ 0)) = true
+  · rw [if_pos hc, if_pos hc]; rfl
+  · rw [if_neg hc, if_neg hc, ok_bind]
+    have : 128 - (128 - len) = len := by omega
+    rw [this]; rfl
+
+theorem parseCidr6S_plain (s : Str) (a : Bytes) (ha : denote6 s = some a) (allowHost : Bool) :
+    parseCidr6SWith parse6S s allowHost = .ok (a, 128) := by
+  unfold parseCidr6SWith cidr6Plain
+  rw [splitOn_none '/' s (denote6_no_slash s a ha)]
+  simp only
+  rw [parse6S_denote s a ha, ok_bind, cidrCheck_eq]
+  have : ¬ ((!allowHost && decide (num6 a % 2 ^ 0 ≠ 0)) = true) := by simp [Nat.mod_one]
+  rw [if_neg this]; rfl
+
+theorem inNetwork6Text_spec (a : Bytes) (net : Str) (n : Bytes) (len : Nat)
+    (hpc : parseCidr6SWith parse6S net false = cidrLenResult 128 n (num6 n) len false) :
+    inNetwork6TextWith (parseCidr6SWith parse6S) a net = inNetResult 128 (num6 a) (num6 n) len := by
+  unfold inNetwork6TextWith inNetResult
+  rw [hpc]
+  unfold cidrLenResult
+  by_cases hl : len > 128
+  · rw [if_pos hl, if_pos hl]; rfl
+  · rw [if_neg hl, if_neg hl]
+    by_cases hh : num6 n % 2 ^ (128 - len) ≠ 0
+    · rw [if_pos (by simp [hh]), if_pos hh]; rfl
+    · rw [if_neg (by simp [hh]), if_neg hh, ok_bind]
+      unfold inNetwork6
+      dsimp only
+      exact inNetworkN_bool 128 _ _ len (by omega) (by omega)
+
+/-! ### whatever is parsed is sixteen bytes -/
+
+theorem parseSegs_len : ∀ (segs : List Str) (side : Bool) (p0 p1 q0 q1 : List Nat),
+    parseSegs segs side p0 p1 = .ok (q0, q1) → q0.length + q1.length ≤ p0.length + p1.length + segs.length := by
+  intro segs
+  induction segs with
+  | nil => intro side p0 p1 q0 q1 h; simp [parseSegs] at h; rw [← h.1, ← h.2]; simp
+  | cons s rest ih =>
+    intro side p0 p1 q0 q1 h
+    unfold parseSegs at h
+    by_cases he : s.isEmpty = true
+    · rw [if_pos he] at h
+      have := ih true p0 p1 q0 q1 h
+      simp; omega
+    · rw [if_neg he] at h
+      cases hp : pyInt 16 s with
+      | error e => rw [hp] at h; cases h
+      | ok n =>
+        rw [hp] at h
+        simp only at h
+        by_cases hr : n < 0 ∨ n > 0xffff
+        · rw [if_pos hr] at h; cases h
+        · rw [if_neg hr] at h
+          cases side
+          · simp only [Bool.false_eq_true, if_false] at h
+            have := ih false _ _ q0 q1 h
+            simp at this ⊢; omega
+          · simp only [if_true] at h
+            have := ih true _ _ q0 q1 h
+            simp at this ⊢; omega
+
+theorem parseGroups_length (addr : Str) (v : Bytes) (h : parseGroups addr = .ok v) : v.length = 16 := by
+  unfold parseGroups at h
+  by_cases h1 : countDC addr > 1
+  · rw [if_pos h1] at h; cases h
+  · rw [if_neg h1] at h
+    by_cases h2 : (splitOn ':' addr).length < 3 ∨ (splitOn ':' addr).length > 8
+    · rw [if_pos h2] at h; cases h
+    · rw [if_neg h2] at h
+      obtain ⟨pq, hpq, hv⟩ := bind_ok_inv _ _ _ h
+      obtain ⟨q0, q1⟩ := pq
+      have hl := parseSegs_len _ _ _ _ _ _ hpq
+      simp only [pure, Except.pure, Except.ok.injEq] at hv
+      rw [← hv, groupBytes_length]
+      simp at hl ⊢; omega
+
+theorem parse6_length (s : Str) (a : Bytes) (h : parse6 s = .ok a) : a.length = 16 := by
+  unfold parse6 parse6With at h
+  by_cases hd : has '.' s = true
+  · rw [if_pos hd] at h
+    cases hr : rsplit1 ':' s with
+    | none => rw [hr] at h; cases h
+    | some Aq =>
+      obtain ⟨A, q⟩ := Aq
+      rw [hr] at h
+      simp only at h
+      by_cases h1 : has '.' A = true
+      · rw [if_pos h1] at h; cases h
+      · rw [if_neg h1] at h
+        by_cases h2 : has ':' q = true
+        · rw [if_pos h2] at h; cases h
+        · rw [if_neg h2] at h
+          obtain ⟨v, hv, h⟩ := bind_ok_inv _ _ _ h
+          obtain ⟨ip, hip, h⟩ := bind_ok_inv _ _ _ h
+          simp only [pure, Except.pure, Except.ok.injEq] at h
+          have hl := parseGroups_length _ v hv
+          rw [← h]
+          simp [hl, IP4.raw_length]
+  · rw [if_neg hd] at h
+    exact parseGroups_length s a h
+
+theorem parse6S_length (s : Str) (a : Bytes) (h : parse6S s = .ok a) : a.length = 16 :=
+  denote6_length s a ((parse6S_iff s a).mp h)
+
+end Pox.Addr
